@@ -7,7 +7,9 @@ import Tahoe.Dir.Traverse
                                            the order of sorted(children.items()))
   → `<events> <done|fuel> <stats>`, events = `A<id>@<path>` (add_node; path = names joined by `/`, `-` if empty)
                                      `E<id>` (enter_directory), separated by `,`;
-    stats = `count-directories,count-files,count-literal-files,count-unknown` (the model's `deepStats`). -/
+    stats = `count-directories,count-files,count-literal-files,count-unknown` (the model's `deepStats`).
+  `multi <root,root,…> <schedule: index,index,…> <nodes>`  several traversals interleaved by the schedule (`multiRun`)
+  → `<events> <done|fuel>|<events> <done|fuel>|…`, one part per traversal. -/
 open Tahoe.Drv Tahoe.Dir.Traverse
 
 def parseKind : String → Option Kind
@@ -47,6 +49,14 @@ def handle : List String → String
       let st := deepStats (graphOf l) res.1
       ",".intercalate (res.1.map showEvent) ++ " " ++ (if res.2 then "done" else "fuel") ++ " " ++
         s!"{st.verifiedDirs + st.literalDirs},{st.verifiedFiles + st.literalFiles},{st.literalFiles},{st.unknown}"
+    | _, _, _ => "bad-op"
+  | ["multi", roots, sched, nodes] =>
+    match parseNatList roots, parseNatList sched, parseNodes nodes with
+    | some rs, some sc, some l =>
+      let g := graphOf l
+      let f := multiRun g sc (fun j => init g (rs.getD j 0))
+      "|".intercalate ((List.range rs.length).map (fun j =>
+        ",".intercalate ((f j).out.map showEvent) ++ (if (f j).stack.isEmpty then " done" else " fuel")))
     | _, _, _ => "bad-op"
   | _ => "bad-op"
 
